@@ -323,4 +323,28 @@ theorem C15_unparsable_lost :
     (roundTripCdx toyOps toyEnv {} (fun _ => idCodec Bom) .xml [mkPkg "x" (some "pkg:bogus/x@1")]).toOption.map purlsOf = some [] := by
   decide
 
+/-! non-vacuity of the `_partial` hypotheses: the toy library's normalisation obeys `NormLaws`; the identity codec satisfies
+the pointwise hypothesis on the example inventory -/
+example : NormLaws toyOps toyNorm := by
+  refine ⟨fun u => ?_, fun u => ?_, fun u => ?_⟩
+  · unfold toyNorm; split <;> simp
+  · unfold toyNorm toyOps; split
+    · rename_i h; subst h; decide
+    · rfl
+  · unfold toyNorm toyOps; split
+    · rename_i h; subst h; simp
+    · rfl
+example : (idCodec SpdxDoc).decode ((idCodec SpdxDoc).encode (toSpdx toyOps toyEnv {} exInv)) = some (toSpdx toyOps toyEnv {} exInv) := rfl
+
+/-- a package whose purl NAME is `main` (and whose SPDX id therefore starts with `SPDXRef-Package-main-`, exactly like the
+wrapper's) is imported: the wrapper is the DESCRIBES target, not "whatever is called main" -/
+def mainOps : PurlOps String where
+  str := id
+  parse := fun s => if s = "" then none else some s
+  name := fun s => if s = "pkg:npm/main@1" then "main" else "other"
+  version := fun _ => "1"
+example : (roundTripSpdx mainOps toyEnv {} (fun _ => idCodec SpdxDoc) .json
+      [mkPkg "main" (some "pkg:npm/main@1"), mkPkg "x" (some "pkg:npm/x@1")]).toOption.map purlsOf
+    = some ["pkg:npm/main@1", "pkg:npm/x@1"] := by decide
+
 end Scalibr.Sbom
